@@ -985,6 +985,9 @@ def check_mirror_contract(ctx, rule):
         cb2, rets2 = closure_ret(F, inner)
         if not (rets2 and len(rets2) == 1 and rets2[0][0] == 'bin' and rets2[0][1] == 'Ge' and rets2[0][3] == ('const', 0.0)):
             return False
+        # the value compared is the distance itself (a margin added inside the comparison moves the test towards acceptance)
+        if cb2 is None or s(rets2[0][2]) != ('param', cb2.arg_names()[-1]):
+            return False
         if want_field is None:
             return onfield[0] == 'param'
         return onfield[0] == 'field' and onfield[2] == want_field
